@@ -271,7 +271,7 @@ func scenario(t *testing.T, idx int64, r *rand.Rand) {
 }
 
 func TestCheck(t *testing.T) {
-	rt.Cases(400, 200000, func(idx int64) {
+	rt.Cases(2000, 400000, func(idx int64) {
 		r := rt.CaseRand(5, idx)
 		rt.Case()
 		scenario(t, idx, r)
